@@ -869,10 +869,21 @@ func (e *c10env) schedScenarios(r *vlib.Run) []c10scenario {
 	add(all2, []int64{2, 64}, "B", true, true, 1)
 	add(conflicts, []int64{2}, "B", false, true, 1)
 	add(conflicts, []int64{2}, "A", true, false, 1)
-	add(all3, []int64{2, 64}, "A", false, false, 1)
-	add(singles, []int64{2, 64}, "A", false, false, 2)
-	add(conflicts, []int64{2}, "A", false, false, 2)
-	add(conflicts[:6], []int64{64}, "A", false, false, 2)
+	// selections of exactly 3 from the 7 operations of the design menu
+	core := map[int]bool{}
+	for _, i := range sel("join-c1", "join-c2-fewsigns", "cand-c3", "disjoin-n1", "expel-n2", "policy-a", "join-c1-dup") {
+		core[i] = true
+	}
+	var core3 [][]int
+	for _, c := range all3 {
+		if core[c[0]] && core[c[1]] && core[c[2]] {
+			core3 = append(core3, c)
+		}
+	}
+	add(core3, []int64{2, 64}, "A", false, false, 1)
+	add(singles, []int64{2}, "A", false, false, 2)
+	add(conflicts[:8], []int64{2}, "A", false, false, 2)
+	add(conflicts[:3], []int64{64}, "A", false, false, 2)
 	return scs
 }
 
